@@ -10,6 +10,7 @@ import (
 	"strings"
 
 	"github.com/icon-project/goloop/common"
+	"github.com/icon-project/goloop/common/crypto"
 	"github.com/icon-project/goloop/common/db"
 	"github.com/icon-project/goloop/service/state"
 )
@@ -34,7 +35,7 @@ func c14Gen(g *Gen) {
 	}
 	// malformed stream
 	g.Emit("reset")
-	for _, l := range []string{"bal 9 1", "set 0 7 1", "wreset 0", "read 3", "reload 1", "bal x 1", "frob", "set 1 1", "get 0", "snap 1"} {
+	for _, l := range []string{"bal 9 1", "set 0 7 1", "wreset 0", "read 3", "reload 1", "bal x 1", "frob", "set 1 1", "get 0", "snap 1", "deploy 0 0", "sog 0 1 1", "deploy 9 1", "gog 1", "sgog 1", "deploy 1 5", "sog 1 2000 1", "sog 1 0 0", "gog 1"} {
 		g.Emit("%s", l)
 	}
 }
@@ -70,7 +71,30 @@ func c14GenCase(g *Gen) {
 			return strconv.Itoa(1 + g.Intn(3))
 		}
 	}
+	ncode := 0
+	var contracts []int
 	for j := 0; j < n; j++ {
+		if g.Intn(100) < 14 {
+			// contract part: deploy (always a fresh code number), object graph writes and reads
+			switch c := g.Intn(10); {
+			case c < 2 || len(contracts) == 0:
+				ncode++
+				a := acct()
+				g.Emit("deploy %d %d", a, ncode)
+				contracts = append(contracts, a)
+			case c < 6:
+				a := contracts[g.Intn(len(contracts))]
+				if g.Intn(8) == 0 {
+					a = acct()
+				}
+				g.Emit("sog %d %d %d", a, g.Pick(0, 0, 1, 2, 3), g.Pick(0, 0, 1, 2, 300))
+			case c < 8:
+				g.Emit("gog %d", contracts[g.Intn(len(contracts))])
+			default:
+				g.Emit("sgog %d", contracts[g.Intn(len(contracts))])
+			}
+			continue
+		}
 		switch c := g.Intn(100); {
 		case c < 16:
 			g.Emit("bal %d %s", acct(), balv())
@@ -170,6 +194,78 @@ func c14UnVal(b []byte) string {
 	return new(big.Int).SetBytes(b).String()
 }
 
+// c14Deploy makes the account a contract whose current (accepted, active) contract has code c.
+func c14Deploy(as state.AccountState, c int) error {
+	as.InitContractAccount(common.NewAccountAddress(make([]byte, 20)))
+	code := []byte(fmt.Sprintf("verif-code-%d", c))
+	tx := c14CodeID(c)
+	if _, err := as.DeployContract(code, state.JavaEE, state.CTAppJava, nil, tx); err != nil {
+		return err
+	}
+	return as.AcceptContract(tx, tx)
+}
+
+func c14CodeID(c int) []byte { return crypto.SHA3Sum256([]byte(fmt.Sprintf("verif-deploy-tx-%d", c))) }
+
+var c14CodeNo = map[string]int{}
+
+// c14Contract renders "code" of an account ("-" = not a contract) and its current code id
+func c14Contract(ad interface {
+	IsContract() bool
+}, cur func() []byte) (string, []byte) {
+	if !ad.IsContract() {
+		return "-", nil
+	}
+	id := cur()
+	if id == nil {
+		return "?", nil
+	}
+	if n, ok := c14CodeNo[string(id)]; ok {
+		return strconv.Itoa(n), id
+	}
+	return "?", id
+}
+
+type c14Grapher interface {
+	GetObjGraph(hash []byte, flags bool) (int, []byte, []byte, error)
+}
+
+func c14Graph(g c14Grapher, id []byte) string {
+	nh, _, data, err := g.GetObjGraph(id, true)
+	if err != nil {
+		return "-"
+	}
+	return fmt.Sprintf("%d/%s", nh, c14UnVal(data))
+}
+
+func c14SnapMeta(as state.AccountSnapshot) string {
+	code, id := c14Contract(as, func() []byte {
+		if c := as.Contract(); c != nil {
+			return c.CodeID()
+		}
+		return nil
+	})
+	g := "-"
+	if id != nil {
+		g = c14Graph(as, id)
+	}
+	return code + ":" + g
+}
+
+func c14StateMeta(as state.AccountState) (string, string, []byte) {
+	code, id := c14Contract(as, func() []byte {
+		if c := as.Contract(); c != nil {
+			return c.CodeID()
+		}
+		return nil
+	})
+	g := "-"
+	if id != nil {
+		g = c14Graph(as, id)
+	}
+	return code, g, id
+}
+
 func (r *c14Runner) hashNo(h []byte) string {
 	k := string(h)
 	if i, ok := r.seen[k]; ok {
@@ -198,7 +294,7 @@ func c14Dump(wss state.WorldSnapshot) string {
 				vs[k] = c14UnVal(v)
 			}
 		}
-		parts[a] = as.GetBalance().String() + ":" + strings.Join(vs, ",")
+		parts[a] = as.GetBalance().String() + ":" + strings.Join(vs, ",") + ":" + c14SnapMeta(as)
 	}
 	return strings.Join(parts, "|")
 }
@@ -214,16 +310,22 @@ func c14Rebuild(dump string, salt int) []byte {
 		v    string
 	}
 	var items []item
+	meta := map[int][2]string{}
 	for a, p := range parts {
 		if p == "-" {
 			continue
 		}
-		bv := strings.SplitN(p, ":", 2)
+		bv := strings.SplitN(p, ":", 4)
 		items = append(items, item{a, -1, bv[0]})
 		for k, v := range strings.Split(bv[1], ",") {
 			if v != "0" {
 				items = append(items, item{a, k, v})
 			}
+		}
+		if bv[2] != "-" {
+			// deploy, then (necessarily later) the object graph
+			meta[a] = [2]string{bv[2], bv[3]}
+			items = append(items, item{a, -2, bv[2]})
 		}
 	}
 	// deterministic shuffle
@@ -235,7 +337,21 @@ func c14Rebuild(dump string, salt int) []byte {
 	}
 	for n, it := range items {
 		as := ws.GetAccountState(c14Addr(it.a))
-		if it.k < 0 {
+		if it.k == -2 {
+			c, _ := strconv.Atoi(it.v)
+			if err := c14Deploy(as, c); err != nil {
+				panic(err)
+			}
+			if g := meta[it.a][1]; g != "-" {
+				ng := strings.SplitN(g, "/", 2)
+				nh, _ := strconv.Atoi(ng[0])
+				gv, _ := strconv.Atoi(ng[1])
+				if salt%2 == 0 {
+					as.SetObjGraph(c14CodeID(c), true, 7, []byte{9}) // overwritten below
+				}
+				as.SetObjGraph(c14CodeID(c), true, nh, c14Val(gv))
+			}
+		} else if it.k < 0 {
 			b, _ := new(big.Int).SetString(it.v, 10)
 			as.SetBalance(b)
 		} else {
@@ -267,7 +383,7 @@ func (r *c14Runner) live() string {
 			v, _ := as.GetValue(c14Key(k))
 			vs[k] = c14UnVal(v)
 		}
-		parts[a] = as.GetBalance().String() + ":" + strings.Join(vs, ",")
+		parts[a] = as.GetBalance().String() + ":" + strings.Join(vs, ",") + ":" + c14SnapMeta(as)
 	}
 	return strings.Join(parts, "|")
 }
@@ -372,6 +488,57 @@ func (r *c14Runner) Step(t []string, o *Oracle) string {
 			return "err"
 		}
 		return c14UnVal(v)
+	case t[0] == "deploy" && len(t) == 3:
+		a, ok := atoi(t[1], c14NAcct)
+		c, ok2 := atoi(t[2], 1000000)
+		if !ok || !ok2 || c == 0 {
+			return "bad-op"
+		}
+		c14CodeNo[string(c14CodeID(c))] = c
+		r.cleanSince = -1
+		if err := c14Deploy(r.ws.GetAccountState(c14Addr(a)), c); err != nil {
+			return "err"
+		}
+		o.Count("op-deploy")
+		return "ok"
+	case t[0] == "sog" && len(t) == 4:
+		a, ok := atoi(t[1], c14NAcct)
+		nh, ok2 := atoi(t[2], 1000)
+		g, ok3 := atoi(t[3], 1000000)
+		if !ok || !ok2 || !ok3 {
+			return "bad-op"
+		}
+		as := r.ws.GetAccountState(c14Addr(a))
+		_, _, id := c14StateMeta(as)
+		if id == nil {
+			return "nocontract"
+		}
+		r.cleanSince = -1
+		if err := as.SetObjGraph(id, true, nh, c14Val(g)); err != nil {
+			return "err"
+		}
+		o.Count("op-setobjgraph")
+		return "ok"
+	case t[0] == "gog" && len(t) == 2:
+		a, ok := atoi(t[1], c14NAcct)
+		if !ok {
+			return "bad-op"
+		}
+		code, g, _ := c14StateMeta(r.ws.GetAccountState(c14Addr(a)))
+		if code == "-" {
+			return "nocontract"
+		}
+		return g
+	case t[0] == "sgog" && len(t) == 2:
+		a, ok := atoi(t[1], c14NAcct)
+		if !ok {
+			return "bad-op"
+		}
+		m := strings.SplitN(c14SnapMeta(r.ws.GetAccountSnapshot(c14Addr(a))), ":", 2)
+		if m[0] == "-" {
+			return "nocontract"
+		}
+		return m[1]
 	case t[0] == "snap" && len(t) == 1:
 		before := r.live()
 		wss := r.ws.GetSnapshot()
@@ -428,8 +595,9 @@ func (r *c14Runner) Step(t []string, o *Oracle) string {
 					nz = true
 				}
 			}
-			if nz {
-				got = as.GetBalance().String() + ":" + strings.Join(vs, ",")
+			code, gr, _ := c14StateMeta(as)
+			if nz || code != "-" {
+				got = as.GetBalance().String() + ":" + strings.Join(vs, ",") + ":" + code + ":" + gr
 			}
 			o.Check(got == want, "reset-does-not-restore-account-state", "after Reset(snapshot %d) account state %d reads %q, snapshot has %q", i, a, got, want)
 		}
